@@ -445,6 +445,7 @@ func (c *sentinelClient) _switchTarget(addr string, isMaster bool) (err error) {
 
 	if isMaster {
 		opt = c.mOpt
+		vhook("sentinel.switch.begin", addr, 1, 0)
 		if mAddr := c.mAddr.Load(); mAddr != nil && mAddr.(string) == addr {
 			target = c.mConn.Load().(conn)
 			if target.Error() != nil {
@@ -453,6 +454,7 @@ func (c *sentinelClient) _switchTarget(addr string, isMaster bool) (err error) {
 		}
 	} else {
 		opt = c.rOpt
+		vhook("sentinel.switch.begin", addr, 0, 0)
 		if rAddr := c.rAddr.Load(); rAddr != nil && rAddr.(string) == addr {
 			target = c.rConn.Load().(conn)
 			if target.Error() != nil {
@@ -462,8 +464,10 @@ func (c *sentinelClient) _switchTarget(addr string, isMaster bool) (err error) {
 	}
 
 	if target == nil {
+		vhook("sentinel.switch.dial", addr, 0, 0)
 		target = c.connFn(addr, opt)
 		if err = target.Dial(); err != nil {
+			vhook("sentinel.switch.dialerr", addr, 0, 0)
 			return err
 		}
 	}
@@ -471,15 +475,18 @@ func (c *sentinelClient) _switchTarget(addr string, isMaster bool) (err error) {
 	resp, err := target.Do(context.Background(), cmds.RoleCmd).ToArray()
 	if err != nil {
 		target.Close()
+		vhook("sentinel.switch.roleerr", addr, 0, 0)
 		return err
 	}
 
 	if isMaster {
 		if resp[0].string() != "master" {
 			target.Close()
+			vhook("sentinel.switch.wrongrole", addr, 1, 0)
 			return errNotMaster
 		}
 
+		vhook("sentinel.swap.begin", addr, 1, 0)
 		c.mAddr.Store(addr)
 
 		if old := c.mConn.Swap(target); old != nil {
@@ -487,12 +494,15 @@ func (c *sentinelClient) _switchTarget(addr string, isMaster bool) (err error) {
 				prev.Close()
 			}
 		}
+		vhook("sentinel.swap.end", addr, 1, 0)
 	} else {
 		if resp[0].string() != "slave" {
 			target.Close()
+			vhook("sentinel.switch.wrongrole", addr, 0, 0)
 			return errNotSlave
 		}
 
+		vhook("sentinel.swap.begin", addr, 0, 0)
 		c.rAddr.Store(addr)
 
 		if old := c.rConn.Swap(target); old != nil {
@@ -500,6 +510,7 @@ func (c *sentinelClient) _switchTarget(addr string, isMaster bool) (err error) {
 				prev.Close()
 			}
 		}
+		vhook("sentinel.swap.end", addr, 0, 0)
 	}
 
 	return nil
